@@ -175,3 +175,31 @@ Definition merge_mask_ok (f : form) : bool :=
                     else act_read (fo_action d) && act_write (fo_action d))
   | None => true
   end.
+
+(* reported reads/writes of a built instruction (ir.Instruction.InputRegisters/OutputRegisters),
+   compared with the implementation, and the specification of the property text: every register of
+   every input operand and every address register of a memory output is read, except exactly the
+   two equal registers of a self-cancelling form *)
+Definition regs_eqb (a b : list reg) : bool := list_eqb reg_eqb a b.
+Definition io_case := (instr * option (list reg) * list reg)%type.   (* instruction, InputRegisters (None = panic), OutputRegisters *)
+Definition io_agree (c : io_case) : bool :=
+  let '(i, ins, outs) := c in
+  match input_registers i, ins with
+  | OK m, Some o => regs_eqb m o
+  | Panic _, None => true
+  | _, _ => false
+  end && regs_eqb (output_registers i) outs.
+Definition reads_spec (i : instr) : list reg :=
+  let rs := flat_map op_registers (inputs i) in
+  let memouts := flat_map (fun o => if is_mem o then op_registers o else []) (outputs i) in
+  (match rs with
+   | r0 :: r1 :: rest => if cancelling i && reg_eqb r0 r1 then rest else rs
+   | _ => rs end) ++ memouts.
+Definition covers_reg (l : list reg) (r : reg) : bool := existsb (fun x => (rid x =? rid r) && (N.land (rmask x) (rmask r) =? rmask r)) l.
+Definition io_impl_ok (c : io_case) : bool :=
+  let '(i, ins, outs) := c in
+  match ins with
+  | Some o => forallb (covers_reg o) (reads_spec i)
+              && forallb (covers_reg outs) (flat_map (fun x => match x with OReg r => [r] | _ => [] end) (outputs i))
+  | None => false
+  end.
